@@ -335,6 +335,30 @@ fn main() {
                 None => println!("setup=failed"),
             }
         }
+        // leftover_temp_file : a closed database gets a leftover temporary file (as a crash between writing it and renaming it to CURRENT
+        // leaves) and a leftover table file no version refers to; a reopen has to reclaim both
+        "leftover_temp_file" => {
+            use raindb::WriteOptions;
+            let mut o = raindb::DbOptions::with_memory_env();
+            o.db_path = "db".to_string();
+            o.create_if_missing = true;
+            {
+                let db = raindb::DB::open(o.clone()).expect("open");
+                db.put(WriteOptions::default(), b"k".to_vec(), b"v".to_vec()).unwrap();
+            }
+            let (tp, tb) = (v::temp_path(&o, 777), v::table_path(&o, 778));
+            for p in [&tp, &tb] {
+                let mut f = o.filesystem_provider().create_file(p, false).unwrap();
+                f.append(b"leftover").unwrap();
+            }
+            {
+                let _db = raindb::DB::open(o.clone()).expect("reopen");
+            }
+            let exists = |p: &std::path::PathBuf| o.filesystem_provider().open_file(p).is_ok();
+            println!("temp_path={}", tp.display());
+            println!("temp_left={}", exists(&tp));
+            println!("table_left={}", exists(&tb));
+        }
         // trivial_move n0 n1 : level 1 holds n0 (1..2) adjacent files which are the chosen inputs, level 2 holds n1 files that
         // overlap them; after the real input finalisation the manifest is asked whether this is a trivial move
         "trivial_move" => {
